@@ -10,7 +10,7 @@ import (
 	"verifharness/internal/val"
 )
 
-var c06Floor = []string{"distinct", "distinct.star", "distinct.multi", "distinct.dups", "distinct.lookalike", "distinct.grouped", "distinct.derived", "distinct.cte", "union.all", "union.distinct", "union.mixed", "chain.2", "chain.3", "chain.4", "union.limit", "union.limit.offset", "union.dups", "table.large", "reexec", "union.async", "union.limit.all-from", "distinct.window", "where", "badutf8", "union.cte", "union.cte.chain3", "branch.window"}
+var c06Floor = []string{"distinct", "distinct.star", "distinct.multi", "distinct.dups", "distinct.lookalike", "distinct.grouped", "distinct.derived", "distinct.cte", "union.all", "union.distinct", "union.mixed", "chain.2", "chain.3", "chain.4", "union.limit", "union.limit.offset", "union.dups", "table.large", "reexec", "union.async", "union.limit.all-from", "distinct.window", "where", "badutf8", "union.cte", "union.cte.chain3", "branch.window", "distinct.fused"}
 
 func init() {
 	fw.Register(&fw.Prop{
@@ -132,9 +132,17 @@ func c06Run(c *fw.Case) {
 		case strings.HasPrefix(force, "distinct.") && force != "distinct.star" && force != "distinct.multi" && force != "distinct.dups" && force != "distinct.lookalike":
 			shape = strings.TrimPrefix(force, "distinct.")
 		case force == "" && c.Chance(0.35):
-			shape = gen.Pick(c.R, []string{"grouped", "derived", "cte"})
+			shape = gen.Pick(c.R, []string{"grouped", "derived", "cte", "fused"})
 		}
 		switch shape {
+		case "fused":
+			// columns the select list does not name: they come out of an object
+			// of the row, and rows may differ in them only
+			for _, r := range t1.Rows {
+				r["o"] = map[string]any{"p": gen.Pick(c.R, []any{1.0, 2.0, "1"}), "q": gen.Pick(c.R, []any{"x", "y"})}
+			}
+			body := gen.Pick(c.R, []string{"FUSE(o)", "a, FUSE(o)", "FUSE(o), b", "FUSE(o) AS f"}) + " FROM t1" + w
+			plain, dsql = "SELECT "+body, "SELECT DISTINCT "+body
 		case "grouped":
 			// the select list drops a grouping key, so different groups give equal rows
 			body := gen.Pick(c.R, []string{"a FROM t1" + w + " GROUP BY a, b", "a, COUNT(*) AS n FROM t1" + w + " GROUP BY a, b", "b, COUNT(*) AS n FROM t1" + w + " GROUP BY b, a"})
